@@ -358,8 +358,10 @@ func c12CMACGraph(c *h.Ctx) error {
 			if wpre, ok := cf.dig[e.P]; ok && !bytes.Equal(pre, wpre) {
 				c.Fail(site+".Sum", "tag", fmt.Sprintf("b=%d W(%d);Sum: spec %x code %x", b, e.P, wpre, pre), smp)
 			}
+			c.Retain(site+".Sum", pre, smp) // the tag read between the writes is a value: the later Sum must not change it
 			m.Write(msg[e.P : e.P+e.K])
 			g := m.Sum(nil)
+			c.Retain(site+".Sum", g, smp)
 			if !bytes.Equal(g, want) {
 				c.Fail(site+".Sum", "sum-then-write", fmt.Sprintf("b=%d W(%d);Sum;W(%d);Sum: spec %x code %x", b, e.P, e.K, want, g), smp)
 			}
